@@ -260,6 +260,38 @@ NOPIECE = {'isFst': False, 'isRoot': False, 'kind': '', 'text': 0, 'liveS': 0, '
            'blank': False, 'src': ''}
 
 
+def block_indent(src: str, elems) -> int:
+    """Oracle fact: number of leading blanks of the line on which the first of `elems` starts (block indent width)."""
+    for n in elems or ():
+        ln = getattr(n, 'lineno', None)
+        if ln is None:
+            continue
+        decos = getattr(n, 'decorator_list', None)
+        if decos:
+            ln = min(ln, decos[0].lineno)
+        line = src.split('\n')[ln - 1]
+        return len(line) - len(line.lstrip(' \t'))
+    return 0
+
+
+def block_indent_at(src: str, path, fallback: int) -> int:
+    """Block indent width of the node at `path` in CPython's parse of `src` (the place a piece was put back to)."""
+    t = try_parse(src)
+    if t is None:
+        return fallback
+    n = t
+    try:
+        for f, i in path:
+            n = getattr(n, f)
+            if i is not None:
+                n = n[i]
+    except (AttributeError, IndexError, TypeError):
+        return fallback
+    if isinstance(n, list):
+        n = n[0] if n else None
+    return block_indent(src, [n]) if isinstance(n, ast.AST) else fallback
+
+
 def root_ok(root) -> bool:
     """The root object is still the root of its own tree (clone identity)."""
     try:
@@ -404,7 +436,7 @@ def extract_events(rec: Recorder, src: str, tree, init: dict, base_ids, case: di
     events = []
     common = {'path': path_json(path), 'field': field or '', 'start': start, 'stop': stop, 'slice': is_slice,
               'opts': opts_json(o), 'fresh': True, 'kind': case['kind'], 'ekind': case['ekind'],
-              'dedent': case.get('dedent', 0), 'trailCmt': 0, 'origBag': 0}
+              'indent': block_indent(src, case.get('elems')), 'trailCmt': 0, 'origBag': 0}
     # -- copy
     root = FST(src, 'exec', indent=indent)
     exc = None
@@ -561,6 +593,16 @@ def _put_back(root, case, piece, o):
             parent.put_slice(piece, idx, idx, fld, one=True, **o)
 
 
+def _elem_path(case):
+    """Path of the first element of the case in a tree of the original shape."""
+    if not case['slice']:
+        return case['path']
+    f = case['field']
+    if f.startswith('_') or not case.get('elems'):
+        return ()  # virtual fields hold no statements: no docstrings to re-indent
+    return tuple(case['path']) + ((f, case['start']),)
+
+
 def roundtrip_event(rec: Recorder, src, init, case, o, indent='    '):
     """Cut the element / slice and put the piece back at the same place, one composite event."""
     root = FST(src, 'exec', indent=indent)
@@ -587,7 +629,9 @@ def roundtrip_event(rec: Recorder, src, init, case, o, indent='    '):
             pexc = e
     return {'call': 'cutput', 'op': op, 'path': path_json(case['path']), 'field': case['field'] or '',
             'start': case['start'], 'stop': case['stop'], 'slice': case['slice'], 'opts': opts_json(o), 'fresh': True,
-            'kind': case['kind'], 'ekind': case['ekind'], 'cutOutcome': 'ok' if cexc is None else 'raise',
+            'kind': case['kind'], 'ekind': case['ekind'], 'indent': block_indent(src, case.get('elems')),
+            'indent2': block_indent_at(root.src, _elem_path(case), block_indent(src, case.get('elems'))),
+            'cutOutcome': 'ok' if cexc is None else 'raise',
             'cutExc': exc_json(cexc), 'outcome': 'ok' if pexc is None else 'raise', 'exc': exc_json(pexc),
             'rootOk': root_ok(root), 'midSrc': mid_src if len(mid_src) < 3000 else '', 'mid': mid,
             'post': rec.state(root, init['rootObj'])}
@@ -622,6 +666,8 @@ def replace_events(rec: Recorder, src, init, case, forms, o, indent='    '):
             exc = e
         out.append({'call': 'replace', 'op': form, 'path': path_json(case['path']), 'field': '', 'start': 0, 'stop': 0,
                     'slice': False, 'opts': opts_json(o), 'fresh': k == 0, 'kind': case['kind'], 'ekind': case['ekind'],
+                    'indent': block_indent(src, case.get('elems')),
+                    'indent2': block_indent_at(root.src, case['path'], block_indent(src, case.get('elems'))),
                     'outcome': 'ok' if exc is None else 'raise', 'exc': exc_json(exc), 'rootOk': root_ok(root),
                     'post': rec.state(root, init['rootObj'])})
         if exc is not None:
@@ -629,7 +675,7 @@ def replace_events(rec: Recorder, src, init, case, forms, o, indent='    '):
     return out
 
 
-def ownsrc_event(rec: Recorder, root, init, case, docstr):
+def ownsrc_event(rec: Recorder, root, init, case, docstr, init_src=''):
     """own_src() of a node of the (shared, read-only) tree `root`, parsed by CPython through the node's embedding."""
     f = fst_at(root, case['path'])
     exc = None
@@ -642,7 +688,8 @@ def ownsrc_event(rec: Recorder, root, init, case, docstr):
         exc = e
     return {'call': 'ownsrc', 'op': 'own_src', 'path': path_json(case['path']), 'field': '', 'start': 0, 'stop': 0,
             'slice': False, 'opts': opts_json({'docstr': docstr}), 'fresh': True, 'kind': case['kind'],
-            'ekind': case['ekind'], 'outcome': 'ok' if exc is None else 'raise', 'exc': exc_json(exc), 'own': own,
+            'ekind': case['ekind'], 'indent': block_indent(init_src, case.get('elems')),
+            'outcome': 'ok' if exc is None else 'raise', 'exc': exc_json(exc), 'own': own,
             'rootOk': root_ok(root), 'post': rec.state(root, init['rootObj'])}
 
 
@@ -780,7 +827,11 @@ def run_shard(args):
     meta = {}
     for tid, prog, variant, seed, what in specs:
         rng = random.Random(seed)
-        src = layouts.variant(PROGRAMS[prog], variant, seed)
+        if variant >= 100:  # C07's own mutator on top of a shared layout: multi-byte text before / inside every container
+            from .c07_layout import wide
+            src = wide(layouts.variant(PROGRAMS[prog], variant - 100, seed), seed)
+        else:
+            src = layouts.variant(PROGRAMS[prog], variant, seed)
         tree = try_parse(src)
         if tree is None:
             continue
@@ -796,7 +847,12 @@ def run_shard(args):
         if what == 'c07':
             cases = node_cases(tree) + slice_cases(tree, rng, conf.get('max_per_field', 12))
             rng.shuffle(cases)
-            cases = _prioritise(cases, conf['cases'])
+            if variant >= 100:  # byte / character column slips live in the slice paths: mostly non-empty slices here
+                sl = [c for c in cases if c['slice'] and c['stop'] > c['start']]
+                cases = _prioritise(sl, 2 * conf['cases']) + _prioritise([c for c in cases if not c['slice']],
+                                                                         max(2, conf['cases'] // 3))
+            else:
+                cases = _prioritise(cases, conf['cases'])
             for k, case in enumerate(cases):
                 o = dict(rng.choice(DOCSTR_POOL if case.get('mlstr') and rng.random() < 0.6 else OPTION_POOL))
                 case['op'] = rng.choice(SLICE_OPS if case['slice'] else NODE_OPS)
@@ -818,7 +874,7 @@ def run_shard(args):
                     add(replace_events(rec, src, init, case, forms, o), dict(info, forms=forms))
                     if case['ekind'] not in OPKINDS or True:
                         ds = rng.choice((True, False, 'strict'))
-                        add([ownsrc_event(rec, ro, init, case, ds)], dict(info, docstr=ds))
+                        add([ownsrc_event(rec, ro, init, case, ds, src)], dict(info, docstr=ds))
         elif what == 'texts':
             dnodes = [(n, p) for n, p in walk_paths(tree) if type(n).__name__ in DOCSTR_KINDS]
             snodes = [(n, p) for n, p in walk_paths(tree) if isinstance(n, ast.stmt)]
